@@ -54,7 +54,9 @@ def run_harness(exe, hlines, jobs=None):
                 f = line.split(" ", 2)
                 res[f[1]] = [parse_res(x) for x in (f[2].split(";") if len(f) > 2 and f[2] else [])]
         if rc != 0:
-            err += "harness exited with %d on a chunk starting with %s: %s\n" % (rc, ch[0][:80], out[-300:])
+            missing = [l for l in ch if l.split(" ", 2)[1] not in res]
+            err += "the driver process died (exit status %d) while running this history on the library:\n%s\n" % (
+                rc, re.sub(r"^H \S+ ", "H reused ", missing[0]) if missing else ch[0][:200])
     return res, err
 
 
@@ -269,7 +271,7 @@ def evaluate(ctx, histories, impl, model, have_hook, facts, known_cls):
     res, err = run_harness(impl, hlines)
     viol, corr, known_hits = [], [], {}
     if err:
-        viol.append({"what": err.strip(), "replay": "\n".join(hlines[:3])})
+        viol.append({"what": err.strip().split("\n")[0], "replay": err.strip().split("\n")[1] if "\n" in err.strip() else hlines[0]})
     # pass 1: oracle bookkeeping, collect the fresh histories needed
     fresh_needed = {}
     per_hist = []
@@ -300,7 +302,7 @@ def evaluate(ctx, histories, impl, model, have_hook, facts, known_cls):
     flines = ["H f%d %s" % (i, k) for i, k in enumerate(keys)]
     fres, ferr = run_harness(impl, flines)
     if ferr:
-        viol.append({"what": "fresh re-runs: " + ferr.strip(), "replay": "\n".join(flines[:3])})
+        viol.append({"what": "fresh re-runs: " + ferr.strip().split("\n")[0], "replay": ferr.strip().split("\n")[1] if "\n" in ferr.strip() else flines[0]})
     for i, k in enumerate(keys):
         rr = fres.get("f%d" % i)
         fresh_needed[k] = rr[-1] if rr and len(rr) == len(k.split(";")) else None
@@ -321,8 +323,12 @@ def evaluate(ctx, histories, impl, model, have_hook, facts, known_cls):
                     if rs <= OBJSTACK and "objstack_depth_after_abort" in known_cls:
                         known_hits["objstack_depth_after_abort"] = known_hits.get("objstack_depth_after_abort", 0) + 1
                     else:
-                        viol.append({"what": "after op %d (%s) the execution context differs from a new transformer's: %s" % (pos, op, r["residue"]),
+                        shown = ",".join(x for x in r["residue"].split(",") if canon_member(x.split("=")[0]) in rs)
+                        viol.append({"what": "after op %d (%s) per-transformation state of the execution context differs from a new transformer's: %s" % (pos, op, shown),
                                      "replay": "H reused %s" % ";".join(ops[:pos + 1])})
+            if op[0] in "de" and r["status"] not in (0, -90):
+                viol.append({"what": "op %d (%s): destroying a live object returned %s" % (pos, op, r["status"]),
+                             "replay": "H reused %s" % ";".join(ops[:pos + 1])})
             if fr is None:
                 continue
             f = fresh_needed.get(";".join(fr))
@@ -348,7 +354,7 @@ def evaluate(ctx, histories, impl, model, have_hook, facts, known_cls):
                 if stale_only and op[0] in "ctv" and "stale_error_after_success" in known_cls:   # entry points that do not start with parseSource
                     known_hits["stale_error_after_success"] = known_hits.get("stale_error_after_success", 0) + 1
                     continue
-                if formswitch and not msgdiff_only_stale(diffs, r, f) and "param_form_switch" in known_cls:
+                if formswitch and "param_form_switch" in known_cls:
                     known_hits["param_form_switch"] = known_hits.get("param_form_switch", 0) + 1
                     continue
                 if msgdiff:
